@@ -39,7 +39,11 @@ Inductive case :=
 (* a configuration whose setup does an amount of work that depends on its arguments (upstream port
    ranges): classes as above, wall time in ms and allocated memory in KiB of the slower mode, and the
    bounds they are held against *)
-| CConfCost (validate execute : N) (ms kib : N) (max_ms max_kib : N).
+| CConfCost (validate execute : N) (ms kib : N) (max_ms max_kib : N)
+(* configurations loaded one after the other in ONE process: for every step the class of that configuration
+   loaded alone in a fresh process, and its class in the sequence (0 accepted, 1 rejected, 2 panic, 3 hang,
+   4 not run because the process was wedged) *)
+| CSeq (steps : list (N * N)).
 
 Definition judge (c : case) : N :=
   match c with
@@ -59,6 +63,12 @@ Definition judge (c : case) : N :=
       let agree := negb known ||
                    ((v =? predict_block false perkey)%N && (x =? predict_block true perkey)%N) in
       verdict agree ((v <? 2)%N && (x <? 2)%N && (v =? x)%N)
+  | CSeq steps =>
+      (* model: what a configuration does depends on the process-global state only up to what setups cannot tell
+         apart, and setups leave that state as they found it - so every step answers as it does alone
+         (C11_outcome_after_any_loads); spec: no step panics or hangs, whatever was loaded - or rejected - before *)
+      verdict (forallb (fun p => (fst p =? snd p)%N) steps)
+              (forallb (fun p => (snd p <? 2)%N && (fst p <? 2)%N && (fst p =? snd p)%N) steps)
   | CConfCost v x ms kib max_ms max_kib =>
       verdict true ((v <? 2)%N && (x <? 2)%N && (v =? x)%N && (ms <=? max_ms)%N && (kib <=? max_kib)%N)
   end.
